@@ -140,7 +140,7 @@ class _MathShim(object):
     def __init__(self):
         import math
         self._m = math
-        self.pi = math.pi
+        self.pi = symnp.pi if not isinstance(symnp.pi, float) else math.pi
         self.e = math.e
         self.inf = math.inf
         self.nan = math.nan
